@@ -302,6 +302,9 @@ func (w *World) BuildReq(e Event) Req {
 		rq.Path = "/auth/register"
 		pw := w.pwString(e)
 		form["email"], form["password"], form["confirm_password"] = pid, pw, pw
+		if !e.Valid && (e.Junk == "none" || e.Junk == "" || e.Junk == "extra") {
+			e.Junk = "weak"
+		}
 		switch e.Junk {
 		case "weak":
 			form["password"], form["confirm_password"] = "short", "short"
@@ -326,7 +329,7 @@ func (w *World) BuildReq(e Event) Req {
 	case "RecoverStart":
 		rq.Path = "/auth/recover"
 		form["email"] = pid
-		if e.Junk == "bademail" {
+		if e.Junk == "bademail" || !e.Valid {
 			form["email"] = "nobody"
 		}
 	case "RecoverEnd":
